@@ -54,6 +54,15 @@ Theorem file_name_is_last_component :
 Proof. exact (fun p => conj (file_name_eq_spec p) (is_hidden_eq_spec p)). Qed.
 Print Assumptions file_name_is_last_component.
 
+(* 4a. and "last component" means what it says: it contains no '/', and the path is a prefix that
+       is empty or ends in '/' followed by it *)
+Theorem last_component_is_after_last_slash :
+  forall p : bytes,
+    ~ In SLASH (last_component p) /\
+    exists pre, p = pre ++ last_component p /\ (pre = [] \/ exists pre', pre = pre' ++ [SLASH]).
+Proof. exact last_component_char. Qed.
+Print Assumptions last_component_is_after_last_slash.
+
 (* 4b. D4: on the pinned tree this was false — any path ending in '.' had no file name, so `.hid.`
        was not hidden.  Repaired by the fix: commit "ignore: file_name rejects only a final
        component that is '.' or '..'"; the model of the pinned text is kept for this witness. *)
@@ -61,6 +70,75 @@ Theorem file_name_pinned_refuted :
   exists p : bytes, is_hidden_with file_name_pinned p <> hidden_spec p.
 Proof. exists [46; 104; 105; 100; 46]%N. vm_compute. discriminate. Qed.
 Print Assumptions file_name_pinned_refuted.
+
+(* 5. The flag-to-builder mapping (HiArgs::walk_builder), the construction of the matcher chain
+      (IgnoreBuilder::build, add_parents with its early return, add_child_path with its has_git rules)
+      and matched_dir_entry together compute the documented fold directly on the world's rule files:
+      a source that a flag switches off has no opinion; repository roots are recognised only when a
+      repository is required and VCS rules are on.  For every flag set, command line, chain above the
+      root, canonical root, non-empty chain below, path. *)
+Theorem decide_eq_world :
+  forall (f : lowflags) (w : world) (path : bytes) (is_dir : bool),
+    w_below w <> [] -> decide f w path is_dir = decide_world f w path is_dir.
+Proof. exact decide_eq_world_proof. Qed.
+Print Assumptions decide_eq_world.
+
+(* 6. flag_removes_exactly_its_source, one per flag: giving the flag = the same decision in the world
+      where that source carries no rules (everything else, including the other flags, unchanged) *)
+Theorem no_ignore_dot_removes_dot_sources :
+  forall f w path is_dir, w_below w <> [] ->
+    decide (set_dot true f) w path is_dir = decide (set_dot false f) (erase_dot w) path is_dir.
+Proof. exact flag_dot_proof. Qed.
+Print Assumptions no_ignore_dot_removes_dot_sources.
+Theorem no_ignore_vcs_removes_git_sources :
+  forall f w path is_dir, w_below w <> [] ->
+    decide (set_vcs true f) w path is_dir = decide (set_vcs false f) (erase_vcs w) path is_dir.
+Proof. exact flag_vcs_proof. Qed.
+Print Assumptions no_ignore_vcs_removes_git_sources.
+Theorem no_ignore_exclude_removes_exclude :
+  forall f w path is_dir, w_below w <> [] ->
+    decide (set_exclude true f) w path is_dir = decide (set_exclude false f) (erase_exclude w) path is_dir.
+Proof. exact flag_exclude_proof. Qed.
+Print Assumptions no_ignore_exclude_removes_exclude.
+Theorem no_ignore_global_removes_global :
+  forall f w path is_dir, w_below w <> [] ->
+    decide (set_global true f) w path is_dir = decide (set_global false f) (erase_global w) path is_dir.
+Proof. exact flag_global_proof. Qed.
+Print Assumptions no_ignore_global_removes_global.
+Theorem no_ignore_parent_removes_parent_files :
+  forall f w path is_dir, w_below w <> [] ->
+    decide (set_parent true f) w path is_dir = decide (set_parent false f) (erase_parent w) path is_dir.
+Proof. exact flag_parent_proof. Qed.
+Print Assumptions no_ignore_parent_removes_parent_files.
+Theorem no_ignore_files_removes_ignore_files :
+  forall f w path is_dir, w_below w <> [] ->
+    decide (set_files true f) w path is_dir = decide (set_files false f) (erase_files w) path is_dir.
+Proof. exact flag_files_proof. Qed.
+Print Assumptions no_ignore_files_removes_ignore_files.
+Theorem hidden_removes_hidden_filter :
+  forall f w path is_dir, w_below w <> [] ->
+    decide (set_hidden true f) w path is_dir
+    = decide_spec (walk_builder_opts (set_hidden false f)) (unhide (wview (set_hidden false f) w path is_dir)).
+Proof. exact flag_hidden_proof. Qed.
+Print Assumptions hidden_removes_hidden_filter.
+(* --no-ignore = its five documented implications (it does not imply --no-ignore-files) *)
+Theorem no_ignore_removes_five_sources :
+  forall f w path is_dir, w_below w <> [] ->
+    decide (flag_no_ignore f) w path is_dir = decide (clear5 f) (erase5 w) path is_dir.
+Proof. exact flag_no_ignore_proof. Qed.
+Print Assumptions no_ignore_removes_five_sources.
+(* -u = --no-ignore; -uu = -u --hidden; -uuu adds only the binary mode *)
+Theorem unrestricted_is_composition :
+  forall n f w path is_dir, w_below w <> [] ->
+    decide (flag_unrestricted n f) w path is_dir =
+    match n with
+    | 0 => decide f w path is_dir
+    | 1 => decide (clear5 f) (erase5 w) path is_dir
+    | _ => decide_spec (walk_builder_opts (set_hidden false (clear5 f)))
+                       (unhide (wview (set_hidden false (clear5 f)) (erase5 w) path is_dir))
+    end.
+Proof. exact flag_unrestricted_proof. Qed.
+Print Assumptions unrestricted_is_composition.
 
 (* non-vacuity: a shallow .rgignore ignore beats a deep .gitignore whitelist (source order dominates
    directory depth); chain = sub (has .gitignore `!a`) :: root (has .rgignore `a`, .git) :: builder root *)
@@ -90,3 +168,6 @@ Check matched_eq_spec :
 Check explicit_path_always_searched :
   forall (f : lowflags) (c : cmdline) (max_depth : option nat) (roots : list root) (p : bytes),
     In (RFile p) roots -> In p (rg_files f c max_depth roots).
+Check decide_eq_world :
+  forall (f : lowflags) (w : world) (path : bytes) (is_dir : bool),
+    w_below w <> [] -> decide f w path is_dir = decide_world f w path is_dir.
